@@ -8,6 +8,7 @@ BASE = {'addr_bits': 16, 'origin': 0, 'page_size': 4, 'pre_zones_op': 'ZonesA', 
 
 
 def instances(tier):
+    yield 'predefined-register-name', dict(BASE, max_len=3, win_end=20, pre_data_op='DataReg', pre_data=[('rg', 6, 85, 2)]), 'AlphaC06reg', None
     if tier == 'quick':
         yield 'core4', dict(BASE, max_len=4, win_end=20), 'AlphaC06core', None
         yield 'len3', dict(BASE, max_len=3, win_end=20), 'AlphaC06', None
